@@ -9,6 +9,8 @@
 #include <covfie/core/backend/transformer/strided.hpp>
 #include <covfie/core/field.hpp>
 #include <covfie/core/utility/nd_map.hpp>
+#include <covfie/core/utility/numeric.hpp>
+#include <algorithm>
 #include <iostream>
 #include <sstream>
 #include <string>
@@ -47,7 +49,13 @@ std::string run(const std::vector<u64> & sz) {
   using LA = typename layer<L, V, A>::type;
   u64 total = 1; for (auto s : sz) total *= s;
   typename SA::configuration_t scfg; for (std::size_t k = 0; k < N; ++k) scfg[k] = sz[k];
-  field<SA> src(make_parameter_pack(std::move(scfg), typename A::configuration_t{total}));
+  // a row-major target is converted from a portable-Morton source, every other target from a row-major source, so that
+  // the target's storage is always allocated and laid out by the library's own converting constructor
+  using MA = backend::morton<V, A, false>;
+  u64 mx = 1; for (auto s : sz) mx = std::max<u64>(mx, s);
+  using SRC = std::conditional_t<L == 0, MA, SA>;
+  field<SRC> src(make_parameter_pack(std::move(scfg), typename A::configuration_t{
+      L == 0 ? utility::ipow<u64>(utility::round_pow2<u64>(mx), N) : total}));
   field<LA> dst(src);
   u64 len = dst.backend().get_backend().get_configuration()[0];
   typename field<LA>::view_t v(dst);
